@@ -87,13 +87,12 @@ theorem decides_tofh (env : Env) (st : List Byte) (hlen : st.length = 512) (l : 
 
 /-! ### Hypotheses on the configuration -/
 
-/-- Every policy rule has an allow/deny/pass/log action and is API-valid (profile rules:
-allow/deny/pass — a `log` rule in a profile panics the builder, see the findings). -/
+/-- Every policy / profile rule has an allow/deny/pass/next-tier/log action and is API-valid. -/
 def TiersGood (ts : List Tier) : Prop :=
   ∀ t ∈ ts, ∀ pol ∈ t.policies, ∀ rule ∈ pol.rules, rule.tierAction = true ∧ RuleOK rule
 
 def ProfsGood (ps : List Policy) : Prop :=
-  ∀ pol ∈ ps, ∀ rule ∈ pol.rules, rule.plainAction = true ∧ RuleOK rule
+  ∀ pol ∈ ps, ∀ rule ∈ pol.rules, rule.tierAction = true ∧ RuleOK rule
 
 structure ProgOK (env : Env) (st : List Byte) (r : Rules) : Prop where
   ctx : SetCtx env st
